@@ -275,19 +275,25 @@ func (v *VC05) Quiesce() {
 			time.Sleep(100 * time.Microsecond)
 		}
 	}
-	// 2. every directory whose wrapper has been closed with the removable flag set is gone
+	// 2. every directory whose wrapper has been closed with the removable flag set is gone. The removal runs in its
+	//    own goroutine (`go MustRMAll`); on a loaded machine that can take long, so the bound is generous (30s, once per
+	//    wrapper: a directory that is still there after that is reported as existing from then on).
+	dirDeadline := time.Now().Add(30 * time.Second)
 	for _, w := range v.seen {
 		if w.mem || w.gone || atomic.LoadInt32(&w.pw.ref) > 0 || !w.pw.removable.Load() {
 			continue
 		}
 		p := partPath(v.root, w.pid)
-		for time.Now().Before(deadline) {
+		for {
 			if _, err := os.Stat(p); err != nil {
-				w.gone = true
 				break
 			}
-			time.Sleep(100 * time.Microsecond)
+			if !time.Now().Before(dirDeadline) {
+				break
+			}
+			time.Sleep(200 * time.Microsecond)
 		}
+		w.gone = true
 	}
 }
 
